@@ -669,7 +669,9 @@ static void prop(Tape &t, Ctx &c) {
           if (cn.cn_type == c05::CN_BMP) { S w; for (unsigned char ch : cn.cn) { w += '\0'; w += (char) ch; } cn.cn = w; }
       } }
     std::vector<Ent> ents;
-    { static const int NS[] = { 0, 1, 2, 2, 3, 3, 4, 2, 1, 3, 5, 6, 4, 2, 3, 1 };
+    // list sizes: mostly small (all permutations are tried), some long ones - real certificates carry dozens of names and the parser
+    // documents no limit
+    { static const int NS[] = { 0, 1, 2, 2, 3, 3, 4, 9, 1, 3, 5, 6, 4, 12, 17, 33 };
       int n = NS[t.below(16)];
       if (smoke && n == 0) n = 1;
       int forced = -1;
